@@ -486,7 +486,7 @@ func (g *G) msg(kind string, v *view, aware bool, who int, depth int) script.Msg
 				ttok = g.acct(g.other(f))
 			}
 		}
-		coins := g.pick("1nund", "1000nund", "5btoken", "7atoken", "1000000000000nund", "3btoken,9nund", "1atoken,1btoken,1nund")
+		coins := g.pick("1nund", "1000nund", "5btoken", "7atoken", "1000000000000nund", "3btoken,9nund", "1atoken,1btoken,1nund", "2nund,5xtoken")
 		ftok := g.acct(f)
 		if !aware {
 			switch g.rng.Intn(4) {
